@@ -88,6 +88,25 @@ def cases(tier, seed):
                   "via": ["vf", "vf", "vf", "interp"][made % 4], "otherFirst": True, "otherCats": other})
         out.append(c)
         made += 1
+    # the user's own GDEF block defines the ligature carets by CONTOUR POINT INDEX (or by position) while the ligature also
+    # carries caret anchors: the writer adds nothing to them
+    rng4 = random.Random(seed * 236887691 + 180020)
+    made = 0
+    for _try in range(300):
+        if made >= (8 if tier == "quick" else 80):
+            break
+        c = layout_gen.gdefcurs_font(rng4)
+        if "f_i" not in c["ufo"]["glyphNames"] or c.get("userClasses") or c.get("kwargs", {}).get("skipExportGlyphs"):
+            continue
+        g = c["ufo"]["glyphs"]["f_i"]
+        if not any(a["n"].startswith("caret_") for a in g["anchors"]):
+            g["anchors"].append({"n": "caret_1", "x": 300 * 1024, "y": 0})
+        by_index = made % 2 == 0
+        c["ufo"]["fea"] = c["ufo"]["fea"] + "\ntable GDEF {\n " + ("LigatureCaretByIndex f_i 2;" if by_index else "LigatureCaretByPos f_i 123;") + "\n} GDEF;"
+        c["userCarets"] = {"f_i": [[2, 2]] if by_index else [[1, 123]]}
+        c.update({"cid": f"c18-{seed}-uc{made}", "lib": rng4.choice(["ufoLib2", "defcon"]), "writers": "default"})
+        out.append(c)
+        made += 1
     # a glyph with cursive anchors that is reachable from a letter ONLY through a substitution whose input or context also
     # holds a direction-neutral glyph (contextual / ligature rules): it takes the letter's direction
     rng2 = random.Random(seed * 236887691 + 180018)
